@@ -5,7 +5,12 @@
 #include <string_theory/format>
 #include <string_theory/string>
 #include <string_theory/string_stream>
+#include <string_theory/stdio>
+#include <string_theory/iostream>
 
+#include <cstdio>
+#include <ostream>
+#include <streambuf>
 #include <string>
 #include <vector>
 
@@ -38,6 +43,13 @@ template <class T> struct Placed {
 
 enum Target { TGT_NONE, TGT_T, TGT_CB, TGT_U16, TGT_U32, TGT_W, TGT_SS };
 
+// a stream buffer over a fixed static array: it never allocates, so an injected allocation failure inside ST::writef is the library's own
+template <class CT> struct FixedBuf : std::basic_streambuf<CT> {
+    static CT *area() { static CT a[1 << 15]; return a; }
+    FixedBuf() { this->setp(area(), area() + (1 << 15)); }
+    size_t count() const { return (size_t)(this->pptr() - this->pbase()); }
+};
+
 struct Fixture {
     Placed<ST::string> T, A, B;
     Placed<ST::char_buffer> CB, CB2;
@@ -49,6 +61,7 @@ struct Fixture {
     std::string raw8, latin1, hexs, b64s; std::u16string raw16; std::u32string raw32; std::wstring raww;
     verif::Exact<char> *x8 = nullptr; verif::Exact<char16_t> *x16 = nullptr; verif::Exact<char32_t> *x32 = nullptr; verif::Exact<wchar_t> *xw = nullptr;
     ST::string *HEX = nullptr, *B64 = nullptr;     // encoded texts for the decoders (library objects, built before arming)
+    ST::string *BIG = nullptr;                      // a long haystack that contains the n-byte text x8 (as given, and once in upper case): searches with long needles
     size_t n = 0;                                   // the "size" argument of the instance
     // models
     std::string mT, mA, mB, mCB, mCB2, mSS; std::u16string mU16, mU16b; std::u32string mU32, mU32b; std::wstring mW, mWb;
@@ -93,6 +106,8 @@ struct Fixture {
             }
             else if (ext == 5) { ST::string t(std::move(*T.obj)); ST::char_buffer c(std::move(*CB.obj)); ST::utf16_buffer u(std::move(*U16.obj)); ST::utf32_buffer v(std::move(*U32.obj)); ST::wchar_buffer x(std::move(*W.obj)); }
             HEX = new ST::string(ST::hex_encode(raw8.data(), raw8.size())); B64 = new ST::string(ST::base64_encode(raw8.data(), raw8.size()));
+            { std::string up = raw8; for (char &ch : up) if (ch >= 'a' && ch <= 'z') ch = (char)(ch - 32);
+              std::string big = "## head of the haystack, " + up + " -- " + raw8 + " ; and a tail that is not the needle ##"; BIG = new ST::string(ST::string::from_validated(big.data(), big.size())); }
         }
         snapshot();
     }
@@ -157,7 +172,7 @@ struct Fixture {
     }
     void destroy() {
         T.kill(); A.kill(); B.kill(); CB.kill(); CB2.kill(); U16.kill(); U16b.kill(); U32.kill(); U32b.kill(); W.kill(); Wb.kill(); SS.kill();
-        { va::LibScope l; delete HEX; delete B64; } HEX = B64 = nullptr;
+        { va::LibScope l; delete HEX; delete B64; delete BIG; } HEX = B64 = BIG = nullptr;
         delete x8; delete x16; delete x32; delete xw; x8 = nullptr; x16 = nullptr; x32 = nullptr; xw = nullptr;
     }
     ~Fixture() { try { destroy(); } catch (...) {} }
@@ -302,6 +317,20 @@ const Op kOps[] = {
     OP("A.after_last(string) ci", TGT_NONE, g_sink = f.A.obj->after_last(*f.B.obj, ST::case_insensitive).size()),
     OP("A.split(cstr) ci", TGT_NONE, g_sink = f.A.obj->split(f.x8->data(), (size_t)-1, ST::case_insensitive).size()),
     OP("A.replace(cstr, cstr) ci", TGT_NONE, g_sink = f.A.obj->replace(f.x8->data(), "+", ST::case_insensitive).size()),
+    // searches in a long haystack with the n-byte needle (n up to 1100): an implementation that prepares the needle (folding, tables) may allocate
+    OP("BIG.find / find_last / contains (n-byte needle) ci", TGT_NONE, g_sink = (size_t)f.BIG->find(f.x8->data(), ST::case_insensitive) + (size_t)f.BIG->find_last(f.x8->data(), ST::case_insensitive) + f.BIG->contains(f.x8->data(), ST::case_insensitive)),
+    OP("BIG.find / find_last (n-byte needle) cs", TGT_NONE, g_sink = (size_t)f.BIG->find(f.x8->data()) + (size_t)f.BIG->find_last(f.x8->data()) + (size_t)f.BIG->find(3, f.x8->data(), f.n / 2, ST::case_sensitive)),
+    OP("BIG.before_first / after_last (n-byte needle) ci", TGT_NONE, g_sink = f.BIG->before_first(f.x8->data(), ST::case_insensitive).size() + f.BIG->after_last(f.x8->data(), ST::case_insensitive).size()),
+    OP("BIG.split / replace (n-byte needle) ci", TGT_NONE, g_sink = f.BIG->split(f.x8->data(), (size_t)-1, ST::case_insensitive).size() + f.BIG->replace(f.x8->data(), "<>", ST::case_insensitive).size()),
+    OP("BIG.starts_with / ends_with / compare_i (n-byte text)", TGT_NONE, g_sink = f.BIG->starts_with(f.x8->data(), ST::case_insensitive) + f.BIG->ends_with(f.x8->data(), ST::case_insensitive) + (size_t)f.BIG->compare_i(f.x8->data())),
+    // formatted output into sinks that never allocate themselves (a FILE* over a fixed array, std streams over fixed arrays): every allocation
+    // that fails is the library's own, and std::bad_alloc has to come out of ST::printf / ST::writef
+    OP("ST::printf(FILE* over a fixed array)", TGT_NONE, static char area[1 << 16]; FILE *fp = fmemopen(area, sizeof area, "w"); if (fp) { setvbuf(fp, nullptr, _IONBF, 0);
+        try { ST::printf(fp, "{}|{>40}|{x}|{_*<300}|{.3f}", *f.A.obj, *f.T.obj, 255, f.x8->data(), 2.5); } catch (...) { fclose(fp); throw; } fclose(fp); }),
+    OP("ST::writef(char stream over a fixed array)", TGT_NONE, FixedBuf<char> sb; std::ostream os(&sb); ST::writef(os, "{}|{>40}|{x}|{_*<300}", *f.A.obj, *f.T.obj, 255, f.x8->data()); g_sink = sb.count()),
+    OP("ST::writef(wchar_t stream over a fixed array)", TGT_NONE, FixedBuf<wchar_t> sb; std::wostream os(&sb); ST::writef(os, "{}|{>40}|{x}|{_*<300}", *f.A.obj, *f.T.obj, 255, f.x8->data()); g_sink = sb.count()),
+    OP("ST::writef(char16_t stream over a fixed array)", TGT_NONE, FixedBuf<char16_t> sb; std::basic_ostream<char16_t> os(&sb); ST::writef(os, "{}|{>40}|{_*<300}", *f.A.obj, *f.T.obj, f.x8->data()); g_sink = sb.count()),
+    OP("ST::writef(char32_t stream over a fixed array)", TGT_NONE, FixedBuf<char32_t> sb; std::basic_ostream<char32_t> os(&sb); ST::writef(os, "{}|{>40}|{_*<300}", *f.A.obj, *f.T.obj, f.x8->data()); g_sink = sb.count()),
     OP("CB.compare / == / view", TGT_NONE, g_sink = (size_t)f.CB.obj->compare(*f.CB2.obj) + (*f.CB.obj == *f.CB2.obj) + f.CB.obj->view().size()),
     OP("hex/base64 decode into caller buffer", TGT_NONE, char out[2048]; g_sink = (size_t)ST::hex_decode(*f.HEX, out, sizeof out) + (size_t)ST::base64_decode(*f.B64, out, sizeof out)),
 };
